@@ -184,7 +184,11 @@ def run(db, chk):
                 labellings = [list(range(n))]
                 if n >= 3:
                     labellings.append([0, 2, 1] + list(range(3, n)))
-                for g, L in itertools.product(list(graphs(n)), labellings):
+                # (the graph object may be a single-column one only when no node has two receivers; a
+                #  graph of single-direction routes may also live in a multi-column object)
+                variants = [(g, L, sf) for g in graphs(n) for L in labellings
+                            for sf in ((True, False) if all(r == ("root",) or len(r) == 1 for r in g) else (False,))]
+                for g, L, single_flow in variants:
                     n_sc += 1
                     order = list(L)
                     R, C, Wt = Table("m_receivers"), Table("m_receivers_count"), Table("m_receivers_weight")
@@ -200,7 +204,7 @@ def run(db, chk):
                                 Wt[(L[i], j)] = Poly.sym("w%d_%d" % (L[i], L[r]))
                     this = Obj(model.GRAPH_IMPL, {"m_receivers": R, "m_receivers_count": C,
                                                    "m_receivers_weight": Wt, "m_grid": Sym("grid", "g"),
-                                                   "m_dfs_indices": PyVec(order)})
+                                                   "m_dfs_indices": PyVec(order), "m_single_flow": single_flow})
                     # sources (hence accumulated values) may have any sign: a comparison of a symbolic
                     # value forks, and every outcome must satisfy the recurrence
                     outcomes = []
@@ -241,8 +245,9 @@ def run(db, chk):
                     if bad:
                         nbad += 1
                     if not bad or nbad <= 5:
-                        chk.ob("C03-R3", "[%s, %s source] graph %s" % (uname, "scalar" if scalar else "array",
-                               ["root" if r == ("root",) else list(r) for r in g]), not bad, where=fn.ploc,
+                        chk.ob("C03-R3", "[%s, %s source] graph %s%s" % (uname, "scalar" if scalar else "array",
+                               ["root" if r == ("root",) else list(r) for r in g],
+                               " in a single-column graph object" if single_flow else ""), not bad, where=fn.ploc,
                                function=fn.bn, construct="recurrence", detail="; ".join(bad[:2]),
                                sample=(n_sc % 13 == 1), extra={"unit": uname})
     chk.absorb(db, "C04", {"C04-S1"}, "C03-R5", "single-direction routing leaves exactly one receiver with "
